@@ -811,9 +811,31 @@ def weak_after_death_items(tier, seed):
     return items
 
 
+def clone_panics_items(tier, seed):
+    """make_mut on a shared object whose T::clone panics (caught): the caller's handle is untouched, and when everything has been
+    dropped nothing may remain allocated (the allocation make_mut prepared for the copy included)"""
+    items = []
+    R = lambda i, j: (i, j, True, False)
+    o = {'expect_all_freed': True, 'panics_ok': True}
+    for (n, e, nm) in [(1, [], 'plain1'), (2, [R(0, 1)], 'owner-target'), (2, [R(0, 1), R(1, 0)], 'ring2')]:
+        for tgt in range(n):
+            for weak in (False, True):
+                ops = F.build_ops(n, e, extras=False) + [{'op': 'clone', 'h': H(tgt), 'as': 'sh'}]
+                if weak:
+                    ops += [{'op': 'downgrade', 'h': H(tgt), 'as': 'ow'}]
+                ops += [{'op': 'clone_mode', 'mode': 'panic'}, {'op': 'catch', 'do': [{'op': 'make_mut', 'h': H(tgt)}]}, {'op': 'clone_mode', 'mode': 'linked'},
+                        {'op': 'strong_count', 'h': H(tgt)}, {'op': 'deref', 'h': H(tgt)}, {'op': 'drop', 'h': 'sh'}]
+                if weak:
+                    ops += [{'op': 'upgrade', 'w': 'ow'}, {'op': 'wdrop', 'w': 'ow'}]
+                ops += F.drop_ops([('h', i) for i in range(n)])
+                items.append(dict(prop='C04', name='make_mut with panicking T::clone on %d of %s%s' % (tgt, nm, ' +Weak' if weak else ''), script={'ops': ops}, sym=True,
+                                  oracles={'C04', 'C06'}, accept_props=['C04', 'C06'], relabel=True, opts=o, layouts=std_layouts(n, tier, seed)[:2]))
+    return items
+
+
 def items_C04(tier, seed, P):
     o = {'expect_all_freed': True}
-    return (leave_by_api_items(tier, seed) + weak_after_death_items(tier, seed) + weak_graph_items('C04', tier, seed, {'C04'}, opts=o, end_all=True)
+    return (leave_by_api_items(tier, seed) + weak_after_death_items(tier, seed) + clone_panics_items(tier, seed) + weak_graph_items('C04', tier, seed, {'C04'}, opts=o, end_all=True)
             + weak_graph_items('C04', tier, seed, {'C04'}, opts=o, end_all=True, dtor_upgrades=False, one_weak=True)     # the only Weak lives inside a value
             + lemma_items('C04', ['weakdrop']))
 
@@ -1006,7 +1028,7 @@ def items_C11(tier, seed, P):
                 for j in range(n):
                     ops.append({'op': 'wdrop', 'w': 'ow%d' % j})
                 items.append(dict(prop='C11', name='%s panic@%d drops=%s' % (nm, k, ''.join('%s%d' % s for s in seq)), script={'ops': ops}, sym=True,
-                                  oracles={'C11', 'C01', 'C02', 'C05'}, accept_props=['C11', 'C01', 'C02', 'C05'], relabel=True, ub_prop='C11',
+                                  oracles={'C11', 'C01', 'C02', 'C05', 'C03'}, accept_props=['C11', 'C01', 'C02', 'C05', 'C03'], relabel=True, ub_prop='C11',
                                   opts={}, layouts=std_layouts(n, tier, seed)[:3 if tier == 'quick' else 6]))
                 # the same history with no Weak observer anywhere: allocations whose last Weak is the implicit one may be
                 # released by the interrupted teardown, and the destructors that still run afterwards drop their stored handles
@@ -1074,7 +1096,7 @@ def vac_C11(results, extra):
 PROPS['C11'] = dict(items=items_C11, bounds={'quick': {'shapes': 'plain, unrecorded chain, owner/target, self-clone, ring2, named N=3 shapes', 'fault': 'the destructor of member k panics (every k), one panic per history', 'orders': '3 drop orders', 'layouts': 3},
                                              'thorough': {'shapes': 'plus named N=4', 'orders': 'all', 'layouts': 6}},
                     outside=OUTSIDE + ['two panics (abort)', 'drop glue of Vec/slices is summarised: remaining elements are dropped after one element panics'],
-                    vacuity=vac_C11, replay_oracles=['C11', 'C01', 'C02', 'C05'])
+                    vacuity=vac_C11, replay_oracles=['C11', 'C01', 'C02', 'C05', 'C03'])
 
 
 # ------------------------------------------------------------------ C13 forgetting unadopt
@@ -1125,7 +1147,20 @@ def items_C13(tier, seed, P):
     return items
 
 
-PROPS['C13'] = dict(items=items_C13, bounds={'quick': {'shapes': 'all fully recorded shapes N<=2 (held<=1), named N=3 shapes', 'history': 'one recorded handle is taken out of its owner without unadopt and then kept by the program or dropped; then every order of dropping the named handles; Deref of the kept handle after each step', 'counters': 'symbolic extras', 'layouts': 2},
+def _items_C13_plus_api(tier, seed, P):
+    """C13's own histories plus C12's: a peer gave its handles away without unadopt and the object then leaves through try_unwrap /
+    make_mut (with Weak handles outstanding) - under C13's oracle (nothing the program holds is destroyed, no monitor event)"""
+    out = items_C13(tier, seed, P)
+    for it in items_C12(tier, seed, P):
+        if 'stale' in it.get('tags', []):
+            c = dict(it)
+            c.update(prop='C13', oracles={'C13'}, accept_props=['C13'], relabel=False, ub_prop='C13', name='leave-by-API after elided unadopt: ' + it['name'],
+                     opts={'panics_ok': False, 'stale': True})
+            out.append(c)
+    return out
+
+
+PROPS['C13'] = dict(items=_items_C13_plus_api, bounds={'quick': {'shapes': 'all fully recorded shapes N<=2 (held<=1), named N=3 shapes', 'history': 'one recorded handle is taken out of its owner without unadopt and then kept by the program or dropped; then every order of dropping the named handles; Deref of the kept handle after each step', 'counters': 'symbolic extras', 'layouts': 2},
                                              'thorough': {'shapes': 'held<=2', 'layouts': 5}},
                     outside=OUTSIDE, vacuity=vac_paths('dtor', 'deref'), replay_oracles=['C13'])
 
@@ -1303,6 +1338,19 @@ def items_C15(tier, seed, P):
             items.append(dict(prop='C15', name='%s N=%d' % (fam, n), script={'ops': ops}, sym=False, oracles={'C03'}, accept_props=['C15'],
                               opts={'panics_ok': True}, layouts=[None, ('rank', tuple(range(n)), (0, 1, 2), 'obj', True)], post_path=post_path,
                               tags=[fam, n]))
+    # rings whose members each recorded a second handle to their successor and gave it up again without unadopt (over-recorded edges)
+    for n in range(2, top + 1):
+        R = lambda i, j: (i, j, True, False)
+        e = []
+        for i in range(n):
+            e += [R(i, (i + 1) % n), R(i, (i + 1) % n)]
+        ops = F.build_ops(n, e, extras=False)
+        for i in range(n - 1):
+            ops += [{'op': 'take', 'via': H(i), 'slot': 1, 'as': 'sp%d' % i}, {'op': 'drop', 'h': 'sp%d' % i}]
+        ops += F.drop_ops([('h', i) for i in range(n)])
+        items.append(dict(prop='C15', name='ring-stale-spares N=%d' % n, script={'ops': ops}, sym=False, oracles=set(), accept_props=['C15'],
+                          opts={'panics_ok': True, 'stale': True}, layouts=[None, ('rank', tuple(range(n)), (0, 1, 2), 'obj', True)], post_path=post_path,
+                          tags=['ring-stale-spares', n]))
     return items
 
 
@@ -1326,7 +1374,7 @@ def finish_C15(tier, seed, P, native, results, scratch):
         for (nn, ee) in [(int(r_['name'].split('N=')[1]), r_) for r_ in results if r_['name'].startswith(f + ' N=')]:
             pass
         def per_unit(n, key):
-            edges = {'ring': n, 'clique': n * (n - 1), 'ring+chord': n + 1, 'ring+selfclone': n + 1, 'hub': 2 * (n - 1), 'ring-all-noop-self': 2 * n}.get(f, n)
+            edges = {'ring': n, 'clique': n * (n - 1), 'ring+chord': n + 1, 'ring+selfclone': n + 1, 'hub': 2 * (n - 1), 'ring-all-noop-self': 2 * n, 'ring-stale-spares': 2 * n}.get(f, n)
             return d[n].get(key, 0) / float(n + edges) / max(1, d[n].get('traces', 1))
         big = [n for n in ns if n >= 3]
         if len(big) >= 2:
@@ -1366,6 +1414,12 @@ def finish_C15(tier, seed, P, native, results, scratch):
             scale['noop-self ring %d' % n] = dict(rc=pr.returncode, destroyed=int(m.group(2)) if m else None, ms=int(m.group(3)) if m else None, n=n)
         except subprocess.TimeoutExpired:
             scale['noop-self ring %d' % n] = dict(rc='timeout', destroyed=None, ms=None, n=n)
+    try:
+        pr = subprocess.run([native.bin, '--ring-stale', '3000', '128'], capture_output=True, text=True, timeout=600)
+        m = re.search(r'ring ok n=(\d+) destroyed=(\d+) ms=(\d+)', pr.stdout)
+        scale['stale-spares ring 3000'] = dict(rc=pr.returncode, destroyed=int(m.group(2)) if m else None, ms=int(m.group(3)) if m else None, n=3000)
+    except subprocess.TimeoutExpired:
+        scale['stale-spares ring 3000'] = dict(rc='timeout', destroyed=None, ms=None, n=3000)
     hub = {}
     for n in (20000, 80000):
         best = None
